@@ -379,10 +379,38 @@ def histories(M, rec, rng, reps):
         query(net, rng)
 
 
+def scripted_user_kinds(M, rec):
+    """In every run: each user-defined origin kind (derived ramps, a ramp declared with `register`, a derived
+    ideal origin) at an interior node, at a merge and at a source, validated in both modes (the in-situ
+    monitor decides against the nine conditions, which speak of what an origin IS)."""
+    from vf import userkinds as UK
+
+    mk = lambda: M.Link(1, 2, 1.0, 180.0, 33.5, 102.0, 1.867)  # noqa: E731
+    for make in (lambda: UK.AlineaRamp(2000.0), lambda: UK.HovRamp(2000.0), lambda: UK.VirtualRamp(), lambda: UK.BoundaryDetector(),
+                 lambda: M.MeteredOnRamp(2000.0), lambda: M.MainstreamOrigin()):
+        for where in ("interior", "merge", "source"):
+            n = [M.Node() for _ in range(4)]
+            net = M.Network().add_path((n[0], mk(), n[1], mk(), n[2]), origin=M.Origin(), destination=M.Destination())
+            if where == "interior":
+                net.add_origin(make(), n[1])
+            elif where == "merge":
+                net.add_path((n[3], mk(), n[1]), origin=M.MainstreamOrigin())
+                net.add_origin(make(), n[1])
+            else:
+                net.add_origin(make(), n[0])
+            rec.count("scripted_user_kind_graphs")
+            for r in (False, True):
+                try:
+                    net.is_valid(raises=r)
+                except Exception:
+                    pass
+
+
 def run(M, rec, tier, seed, k, n):
     rng = random.Random(seed * 1000 + k + 600)
     mon = ValidMonitor(M, rec).install()
     try:
+        scripted_user_kinds(M, rec)
         if tier == "quick":
             exhaustive(M, rec, rng, 2, 0, 1)
             shared_objects(M, rec, rng, 150)
